@@ -14,5 +14,11 @@ func init() {
 			{Name: "C20/W3-full-queue", Build: sched, Pkg: "internal", Test: "TestVerif_C20", Params: "driver=W3-full-queue,P=2", Shards: 3, BudgetS: 60},
 			{Name: "C20/W4-delete-evict", Build: sched, Pkg: "internal", Test: "TestVerif_C20", Params: "driver=W4-delete-evict,P=2", Shards: 3, BudgetS: 60},
 		},
+		Thorough: []Scenario{
+			{Name: "C20/W1-two-waiters", Build: sched, Pkg: "internal", Test: "TestVerif_C20", Params: "driver=W1-two-waiters,P=3,D=2", Shards: 16, BudgetS: 600},
+			{Name: "C20/W2-three-waiters", Build: sched, Pkg: "internal", Test: "TestVerif_C20", Params: "driver=W2-three-waiters,P=3,D=1", Shards: 16, BudgetS: 900},
+			{Name: "C20/W3-full-queue", Build: sched, Pkg: "internal", Test: "TestVerif_C20", Params: "driver=W3-full-queue,P=3,D=2", Shards: 16, BudgetS: 600},
+			{Name: "C20/W4-delete-evict", Build: sched, Pkg: "internal", Test: "TestVerif_C20", Params: "driver=W4-delete-evict,P=3,D=2", Shards: 16, BudgetS: 600},
+		},
 	})
 }
